@@ -16,7 +16,7 @@ PROP = "C18"
 RULE = (
     "EXHAUSTIVE: six public gateway classes x every subset of their seven documented keyword options (768 "
     "constructions) with values drawn per option; each supplied option is then observed (callback fires on a "
-    "presentation; a save lands at the given path in the given format; port/baud/host/timeout/reconnect_timeout "
+    "presentation; a save lands at the given path in the given format; reconnect_timeout governs probing, dropping and keeping a TCP link on the simulated clock of C20, also when the link comes up after several refused dials; port/baud/host/timeout/reconnect_timeout "
     "reach the fake dial function and the transport attributes; prefixes/retain reach the publish/subscribe "
     "callbacks). EXHAUSTIVE: 260 version strings major.minor[.patch] (major 0..3, minor 0..12, patch absent or "
     "0..3) + Hypothesis junk (text, numbers, None, wrapped); the selected behaviour is observed through probe "
@@ -525,7 +525,47 @@ def bucket(stats):
     stats.violations = out
 
 
+def timing_cases():
+    """reconnect_timeout in effect on a simulated clock (the C20 simulators): the TCP link comes up after 0-4
+    refused dials, every probe is answered at once; it must stay up, and a silent one must be dropped."""
+    out = []
+    for flavour in ("sync-tcp", "async-tcp"):
+        for rt in (0.5, 2.0):
+            for late in (0, 3, 4):
+                out.append({"kind": "timing", "script": {"flavour": flavour, "rt": rt, "kind": "watchdog", "dials": ["fail"] * late + ["ok"], "latencies": [0.0] * 12, "silent_from": None, "events": []}})
+            out.append({"kind": "timing", "script": {"flavour": flavour, "rt": rt, "kind": "watchdog", "dials": ["fail", "fail", "fail", "ok"], "latencies": [], "silent_from": 0.0, "events": []}})
+    return out
+
+
+def _timing_worker(case):
+    common.setup_path()
+    stats = common.Stats()
+    try:
+        check_timing(case, stats)
+    except Violation as v:
+        stats.violation(v.clause, v.case, v.detail)
+    return stats
+
+
+def check_timing(case, stats=None):
+    from vf.checks import c20
+
+    script = case["script"]
+    try:
+        c20.check_case(script)
+    except Violation as v:
+        raise Violation(f"option_not_honoured.reconnect_timeout.{v.clause}", case, f"reconnect_timeout={script['rt']} on {script['flavour']}, link up after {len(script['dials']) - 1} refused dials: {v.detail}") from v
+    except common.HarnessError:
+        raise
+    except Exception as exc:  # pylint: disable=broad-except
+        raise Violation(f"option_refused.reconnect_timeout.{type(exc).__name__}", case, f"a TCP gateway with reconnect_timeout={script['rt']} ({script['flavour']}) could not be built / started: {type(exc).__name__}: {exc}") from exc
+    if stats is not None:
+        stats.case(common.chash(script), {"timing": script["flavour"], "rt": script["rt"], "refused_dials_first": len(script["dials"]) - 1, "silent": script["silent_from"] is not None}, labels=("timing",))
+
+
 def check_case(case, stats=None):
+    if case["kind"] == "timing":
+        return check_timing(case, stats)
     if case["kind"] == "pair":
         return two_gateways(case["cls"], case["version"], stats)
     if case["kind"] == "version":
@@ -559,6 +599,8 @@ def main(tier):
         run.stats.merge(stats)
     n = 60 if tier == "quick" else 5000
     for stats in common.pool_map(_junk_worker, [(common.shard_seed(common.seed(), i), n) for i in range(8 if tier == "quick" else 16)]):
+        run.stats.merge(stats)
+    for stats in common.pool_map(_timing_worker, timing_cases()):
         run.stats.merge(stats)
     bucket(run.stats)
     return run.finish()
